@@ -12,8 +12,1082 @@ Ltac Zify.zify_post_hook ::= Z.to_euclidean_division_equations.
 Definition check_of (w : list Z) (vt : option (list Z)) : Prop :=
   vt = None \/ exists n chk, 1 <= n /\ set_vt w n = Ok chk /\ vt = Some chk.
 
-(* TARGET STATEMENTS (to be proved, do not change the statements):
 
+(* All TARGET STATEMENTS (repair_single_sub, repair_single_ins, repair_single_del) are proved at the end of
+   this file, exactly as given.  Outline: strands are followed through the shift states
+   stt k v t = fold of v |-> (4 v + index c) mod 4^k (Part 2); on induced_on k X a step succeeds iff the next
+   state is in X (Part 3); scan_loop is characterised on a walkable stretch and on one detection step
+   (Part 4); fragments_of keeps every record of every path_matching call (Part 5); detect_gen computes
+   repair_dna when there is exactly one detection (Part 6); an edit w = A ++ B1 ++ C |-> s = A ++ B2 ++ C only
+   disturbs the states in a window of k positions (Part 7); the S / D / I record repairs it (Part 8). *)
+
+(* ========================================================================================== *)
+(* Part 1: lists and slices                                                                   *)
+(* ========================================================================================== *)
+Lemma r8_nth_firstn : forall {A} (l : list A) i j d, (i < j)%nat -> nth i (firstn j l) d = nth i l d.
+Proof.
+  intros A. induction l as [|x l IH]; intros i j d H.
+  - rewrite firstn_nil. reflexivity.
+  - destruct j as [|j]; [lia|]. destruct i as [|i]; [reflexivity|]. cbn [firstn nth]. apply IH. lia.
+Qed.
+
+Lemma r8_nth_skipn : forall {A} (l : list A) i j d, nth i (skipn j l) d = nth (j + i) l d.
+Proof.
+  intros A. induction l as [|x l IH]; intros i j d.
+  - rewrite skipn_nil. destruct i, j; reflexivity.
+  - destruct j as [|j]; [reflexivity|]. cbn [skipn Nat.add nth]. apply IH.
+Qed.
+
+Lemma r8_skipn_skipn : forall {A} (l : list A) i j, skipn i (skipn j l) = skipn (j + i) l.
+Proof.
+  intros A. induction l as [|x l IH]; intros i j.
+  - rewrite !skipn_nil. reflexivity.
+  - destruct j as [|j]; [reflexivity|]. cbn [skipn Nat.add]. apply IH.
+Qed.
+
+Lemma r8_firstn_add : forall {A} (l : list A) i m, firstn (i + m) l = firstn i l ++ firstn m (skipn i l).
+Proof.
+  intros A. induction l as [|x l IH]; intros i m.
+  - rewrite skipn_nil, !firstn_nil. reflexivity.
+  - destruct i as [|i]; [reflexivity|]. cbn [Nat.add firstn skipn app]. f_equal. apply IH.
+Qed.
+
+Lemma r8_clamp_nat : forall (n a : nat), (a <= n)%nat -> clampZ (Z.of_nat n) (Z.of_nat a) = Z.of_nat a.
+Proof. intros n a H. clamp_cases. Qed.
+
+Lemma r8_slice_nat : forall {A} (l : list A) (a b : nat), (a <= b)%nat -> (b <= length l)%nat ->
+  py_slice l (Z.of_nat a) (Z.of_nat b) = firstn (b - a) (skipn a l).
+Proof.
+  intros A l a b Hab Hb. unfold py_slice. cbv zeta. rewrite !r8_clamp_nat by lia.
+  destruct (Z.of_nat b <=? Z.of_nat a) eqn:E.
+  - replace (b - a)%nat with 0%nat by lia. reflexivity.
+  - replace (Z.to_nat (Z.of_nat b - Z.of_nat a)) with (b - a)%nat by lia. rewrite Nat2Z.id. reflexivity.
+Qed.
+
+Lemma r8_slice_to_nat : forall {A} (l : list A) (b : nat), (b <= length l)%nat ->
+  py_slice_to l (Z.of_nat b) = firstn b l.
+Proof.
+  intros A l b Hb. unfold py_slice_to. change 0 with (Z.of_nat 0). rewrite r8_slice_nat by lia.
+  rewrite Nat.sub_0_r. reflexivity.
+Qed.
+
+Lemma r8_slice_from_nat : forall {A} (l : list A) (a : nat), (a <= length l)%nat ->
+  py_slice_from l (Z.of_nat a) = skipn a l.
+Proof.
+  intros A l a Ha. unfold py_slice_from. rewrite r8_slice_nat by lia.
+  apply firstn_all2. rewrite skipn_length. lia.
+Qed.
+
+Lemma r8_set_nth_same : forall {A} (l : list A) i x d, (i < length l)%nat -> nth i (set_nth l i x) d = x.
+Proof.
+  intros A. induction l as [|y l IH]; intros i x d H; [cbn [length] in H; lia|].
+  destruct i as [|i]; [reflexivity|]. cbn [set_nth nth]. apply IH. cbn [length] in H. lia.
+Qed.
+
+Lemma r8_set_nth_other : forall {A} (l : list A) i j x d, i <> j -> nth j (set_nth l i x) d = nth j l d.
+Proof.
+  intros A. induction l as [|y l IH]; intros i j x d H; [destruct i; reflexivity|].
+  destruct i as [|i]; destruct j as [|j]; cbn [set_nth nth]; try reflexivity; try lia.
+  apply IH. lia.
+Qed.
+
+(* bounded search for the first position where a boolean test fails *)
+Lemma r8_first_fail : forall (P : nat -> bool) n,
+  (forall j, (j < n)%nat -> P j = true) \/
+  exists l, (l < n)%nat /\ (forall j, (j < l)%nat -> P j = true) /\ P l = false.
+Proof.
+  intros P. induction n as [|n IH].
+  - left. intros j Hj. lia.
+  - destruct IH as [IH|(l & Hl & H1 & H2)].
+    + destruct (P n) eqn:E.
+      * left. intros j Hj. destruct (Nat.eq_dec j n) as [->|Hn]; [exact E|apply IH; lia].
+      * right. exists n. split; [lia|]. split; [exact IH|exact E].
+    + right. exists l. split; [lia|]. split; [exact H1|exact H2].
+Qed.
+
+(* ========================================================================================== *)
+(* Part 2: shift states                                                                       *)
+(* ========================================================================================== *)
+Definition idx (c : Z) : Z := match nuc_index c with Some j => j | None => 0 end.
+Definition nx (k : nat) (v c : Z) : Z := (4 * v + idx c) mod pow4 k.
+Definition stt (k : nat) (v : Z) (t : list Z) : Z := fold_left (nx k) t v.
+Definition kval (t : list Z) : Z := rval 4 (map idx t).
+
+Lemma idx_range : forall c, 0 <= idx c < 4.
+Proof.
+  intros c. unfold idx. destruct (nuc_index c) as [j|] eqn:E; [|lia].
+  apply ConvertProofs.nuc_index_some in E. lia.
+Qed.
+
+Lemma idx_char : forall c, is_acgt c = true -> nuc_index c = Some (idx c) /\ nuc_char (idx c) = c.
+Proof.
+  intros c H. unfold is_acgt in H. unfold idx. destruct (nuc_index c) as [j|] eqn:E; [|discriminate].
+  split; [reflexivity|]. apply ConvertProofs.nuc_index_some in E. symmetry. apply E.
+Qed.
+
+Lemma nx_range : forall k v c, 0 <= nx k v c < pow4 k.
+Proof. intros k v c. unfold nx. apply Z.mod_pos_bound, pow4_pos. Qed.
+
+Lemma stt_nil : forall k v, stt k v [] = v.
+Proof. reflexivity. Qed.
+
+Lemma stt_cons : forall k v c t, stt k v (c :: t) = stt k (nx k v c) t.
+Proof. reflexivity. Qed.
+
+Lemma stt_app : forall k v a b, stt k v (a ++ b) = stt k (stt k v a) b.
+Proof. intros. unfold stt. apply fold_left_app. Qed.
+
+Lemma stt_snoc : forall k v a c, stt k v (a ++ [c]) = nx k (stt k v a) c.
+Proof. intros. rewrite stt_app. reflexivity. Qed.
+
+Lemma stt_range : forall k v t, 0 <= v < pow4 k -> 0 <= stt k v t < pow4 k.
+Proof.
+  intros k v t. revert v. induction t as [|c t IH]; intros v Hv; [exact Hv|].
+  rewrite stt_cons. apply IH. apply nx_range.
+Qed.
+
+Lemma kval_range : forall t, 0 <= kval t < pow4 (length t).
+Proof.
+  intros t. unfold kval. rewrite <- (map_length idx t). apply rval_range.
+  apply Forall_forall. intros x Hx. apply in_map_iff in Hx. destruct Hx as (c & <- & _). apply idx_range.
+Qed.
+
+Lemma kval_cons : forall c t, kval (c :: t) = idx c * pow4 (length t) + kval t.
+Proof. intros. unfold kval. cbn [map]. rewrite KmerProofs.rval_cons, map_length. reflexivity. Qed.
+
+Lemma kval_snoc : forall t c, kval (t ++ [c]) = 4 * kval t + idx c.
+Proof. intros. unfold kval. rewrite map_app. cbn [map]. apply rval_snoc. Qed.
+
+Lemma stt_formula : forall k t v, 0 <= v < pow4 k -> stt k v t = (v * pow4 (length t) + kval t) mod pow4 k.
+Proof.
+  intros k t. induction t as [|c t IH] using rev_ind; intros v Hv.
+  - cbn [length]. rewrite stt_nil, pow4_0. unfold kval. cbn [map]. rewrite rval_nil.
+    rewrite Z.mod_small; lia.
+  - rewrite stt_snoc, IH by exact Hv. rewrite app_length. cbn [length].
+    replace (length t + 1)%nat with (S (length t)) by lia. rewrite pow4_S, kval_snoc.
+    unfold nx. pose proof (pow4_pos k) as HP.
+    rewrite Z.add_mod by lia. rewrite Z.mul_mod_idemp_r by lia. rewrite <- Z.add_mod by lia.
+    f_equal. lia.
+Qed.
+
+Lemma pow4_add : forall a b, pow4 (a + b) = pow4 a * pow4 b.
+Proof. intros. unfold pow4. rewrite Nat2Z.inj_add, Z.pow_add_r by lia. reflexivity. Qed.
+
+(* after k symbols the state only depends on those symbols *)
+Lemma stt_forget : forall k t u u', (k <= length t)%nat -> 0 <= u < pow4 k -> 0 <= u' < pow4 k ->
+  stt k u t = stt k u' t.
+Proof.
+  intros k t u u' Hl Hu Hu'. rewrite !stt_formula by assumption.
+  replace (length t) with (k + (length t - k))%nat by lia. rewrite pow4_add.
+  pose proof (pow4_pos k) as HP.
+  rewrite !Z.mul_assoc.
+  rewrite (Z.mul_comm u), (Z.mul_comm u'). rewrite <- !Z.mul_assoc.
+  rewrite (Z.add_comm (pow4 k * _)), (Z.add_comm (pow4 k * _)).
+  rewrite !(Z.mul_comm (pow4 k)). rewrite !Z.mod_add by lia. reflexivity.
+Qed.
+
+Lemma stt_kval : forall k t u, length t = k -> 0 <= u < pow4 k -> stt k u t = kval t.
+Proof.
+  intros k t u Hl Hu. rewrite stt_formula by exact Hu. rewrite Hl.
+  pose proof (pow4_pos k) as HP. rewrite Z.add_comm, Z.mod_add by lia.
+  apply Z.mod_small. pose proof (kval_range t) as H. rewrite Hl in H. exact H.
+Qed.
+
+Lemma kval_mod4 : forall t c, kval (t ++ [c]) mod 4 = idx c.
+Proof.
+  intros. rewrite kval_snoc. pose proof (idx_range c). rewrite Z.add_comm, Z.mul_comm, Z.mod_add by lia.
+  apply Z.mod_small. lia.
+Qed.
+
+Lemma dna_int_kval : forall t, acgt t -> dna_to_number_int t = Ok (kval t).
+Proof.
+  intros t H. destruct (ConvertProofs.nuc_values_acgt t H) as (vs & _ & Hvs & ->).
+  rewrite dna_int_map by exact Hvs. unfold kval. rewrite map_map.
+  f_equal. f_equal. clear H. induction Hvs as [|v vs Hv _ IH]; [reflexivity|].
+  cbn [map]. rewrite <- IH. f_equal. unfold idx. rewrite ConvertProofs.nuc_index_char by exact Hv. reflexivity.
+Qed.
+
+(* ========================================================================================== *)
+(* Part 3: walking on a vertex-induced graph                                                  *)
+(* ========================================================================================== *)
+Section Ind.
+Variable k : nat.
+Variable X : vset.
+Hypothesis Hk : (1 <= k)%nat.
+Local Notation acc := (induced_on k X).
+
+Lemma acc_shaped : shaped acc.
+Proof. apply (legal_shaped k). apply induced_on_legal. Qed.
+
+Lemma acc_nrows : nrows acc = pow4 k.
+Proof. apply (legal_shaped k). apply induced_on_legal. Qed.
+
+Lemma acc_pos : 0 < nrows acc.
+Proof. rewrite acc_nrows. apply pow4_pos. Qed.
+
+Lemma vin_in_range : forall v, vin k X v -> in_range acc v.
+Proof. intros v [Hv _]. unfold in_range. rewrite acc_nrows. exact Hv. Qed.
+
+Lemma range_vok : forall v, 0 <= v < pow4 k -> vok acc v.
+Proof. intros v Hv. unfold vok. rewrite acc_nrows. lia. Qed.
+
+Lemma entry_nx : forall v c, vin k X v ->
+  entry acc v (idx c) = if X (nx k v c) then nx k v c else -1.
+Proof.
+  intros v c [Hv HX]. rewrite induced_on_entry by (try exact Hv; apply idx_range).
+  rewrite HX. cbn [andb]. reflexivity.
+Qed.
+
+Lemma step_ok8 : forall v c, vin k X v -> is_acgt c = true -> X (nx k v c) = true ->
+  step_arc acc v c = Ok (Some (nx k v c)).
+Proof.
+  intros v c Hv Hc Hx. destruct (idx_char c Hc) as [Hn _].
+  rewrite (step_arc_walk acc v c (idx c) acc_shaped (vin_in_range v Hv) Hn).
+  - rewrite entry_nx, Hx by exact Hv. reflexivity.
+  - rewrite entry_nx, Hx by exact Hv. apply nx_range.
+Qed.
+
+Lemma step_fail8 : forall v c, vin k X v -> is_acgt c = true -> X (nx k v c) = false ->
+  step_arc acc v c = Ok None.
+Proof.
+  intros v c Hv Hc Hx. destruct (idx_char c Hc) as [Hn _].
+  unfold step_arc. rewrite (py_get_row acc v (vin_in_range v Hv)). cbn [bind]. rewrite Hn.
+  destruct (memZ (idx c) (used_indices (get_row acc v))) eqn:E; [|reflexivity].
+  apply rp_memZ_iff in E. apply (used_in_iff acc v (idx c) acc_shaped (vin_in_range v Hv)) in E.
+  destruct E as [_ E]. rewrite entry_nx, Hx in E by exact Hv. lia.
+Qed.
+
+Fixpoint okw (v : Z) (t : list Z) : Prop :=
+  match t with
+  | [] => True
+  | c :: t' => is_acgt c = true /\ X (nx k v c) = true /\ okw (nx k v c) t'
+  end.
+
+Lemma nx_vin : forall v c, X (nx k v c) = true -> vin k X (nx k v c).
+Proof. intros v c H. split; [apply nx_range|exact H]. Qed.
+
+Lemma is_walk_okw : forall t v, vin k X v -> (is_walk acc v t <-> okw v t).
+Proof.
+  induction t as [|c t IH]; intros v Hv; cbn [is_walk okw]; [tauto|]. split.
+  - intros (j & Hn & _ & He & Hw).
+    assert (Hc : is_acgt c = true) by (unfold is_acgt; rewrite Hn; reflexivity).
+    assert (Hj : j = idx c) by (unfold idx; rewrite Hn; reflexivity). subst j.
+    rewrite entry_nx in He, Hw by exact Hv.
+    destruct (X (nx k v c)) eqn:Hx; [|lia].
+    split; [exact Hc|]. split; [reflexivity|]. apply IH; [apply nx_vin; exact Hx|exact Hw].
+  - intros (Hc & Hx & Hw). exists (idx c). destruct (idx_char c Hc) as [Hn _].
+    split; [exact Hn|]. split; [apply vin_in_range; exact Hv|].
+    rewrite entry_nx, Hx by exact Hv. split; [apply nx_range|].
+    apply IH; [apply nx_vin; exact Hx|exact Hw].
+Qed.
+
+Lemma is_walk_start : forall v c t, 0 <= v < pow4 k -> is_walk acc v (c :: t) -> vin k X v.
+Proof.
+  intros v c t Hv (j & Hn & _ & He & _). split; [exact Hv|].
+  apply ConvertProofs.nuc_index_some in Hn. rewrite induced_on_entry in He by (try exact Hv; lia).
+  destruct (X v); [reflexivity|]. cbn [andb] in He. lia.
+Qed.
+
+Lemma is_walk_start_len : forall v t, 0 <= v < pow4 k -> (0 < length t)%nat -> is_walk acc v t -> vin k X v.
+Proof.
+  intros v t Hv Hl H. destruct t as [|c t]; [cbn [length] in Hl; lia|]. eapply is_walk_start; eassumption.
+Qed.
+
+Lemma okw_app : forall a b v, okw v (a ++ b) <-> okw v a /\ okw (stt k v a) b.
+Proof.
+  induction a as [|c a IH]; intros b v; cbn [app okw].
+  - rewrite stt_nil. tauto.
+  - rewrite stt_cons, IH. tauto.
+Qed.
+
+Lemma okw_acgt : forall t v, okw v t -> acgt t.
+Proof.
+  induction t as [|c t IH]; intros v H; [constructor|]. destruct H as (Hc & _ & H).
+  constructor; [exact Hc|eapply IH; exact H].
+Qed.
+
+Lemma okw_vin : forall t v, vin k X v -> okw v t -> vin k X (stt k v t).
+Proof.
+  induction t as [|c t IH]; intros v Hv H; [exact Hv|]. destruct H as (_ & Hx & H).
+  rewrite stt_cons. apply IH; [apply nx_vin; exact Hx|exact H].
+Qed.
+
+Lemma okw_pos : forall t v, okw v t <->
+  (acgt t /\ forall j, (j < length t)%nat -> X (stt k v (firstn (S j) t)) = true).
+Proof.
+  induction t as [|c t IH]; intros v; cbn [okw].
+  - split; [intros _; split; [constructor|cbn [length]; intros j Hj; lia]|tauto].
+  - rewrite IH. split.
+    + intros (Hc & Hx & Ha & Hall). split; [constructor; assumption|].
+      intros j Hj. destruct j as [|j]; [exact Hx|].
+      cbn [firstn]. rewrite stt_cons. apply Hall. cbn [length] in Hj. lia.
+    + intros (Ha & Hall). inversion Ha as [|? ? Hc Ht]; subst.
+      split; [exact Hc|]. split; [apply (Hall 0%nat); cbn [length]; lia|].
+      split; [exact Ht|]. intros j Hj. specialize (Hall (S j)). cbn [firstn] in Hall.
+      rewrite stt_cons in Hall. apply Hall. cbn [length]. lia.
+Qed.
+
+Lemma walk_from_ok : forall t v vis, vin k X v -> okw v t ->
+  walk_from acc v t vis = Ok (true, vis + Z.of_nat (length t)).
+Proof.
+  induction t as [|c t IH]; intros v vis Hv H; cbn [walk_from].
+  - cbn [length]. rewrite Z.add_0_r. reflexivity.
+  - destruct H as (Hc & Hx & H). rewrite (step_ok8 v c Hv Hc Hx). cbn [bind].
+    rewrite IH by (try apply nx_vin; assumption). cbn [length]. f_equal. f_equal. lia.
+Qed.
+
+Lemma try_each_in : forall row rest (mk : Z -> record) cands vis recs n j nxt m,
+  try_each acc row cands rest mk vis = Ok (recs, n) -> In j cands -> py_get row j = Ok nxt ->
+  walk_from acc nxt rest 0 = Ok (true, m) -> In (mk j) recs.
+Proof.
+  intros row rest mk. induction cands as [|j0 t IH]; intros vis recs n j nxt m H Hin Hg Hw; [destruct Hin|].
+  cbn [try_each] in H.
+  destruct (py_get row j0) as [nxt0|e|] eqn:E0; cbn [bind] in H; try discriminate.
+  destruct (walk_from acc nxt0 rest 0) as [r|e|] eqn:E1; cbn [bind] in H; try discriminate.
+  destruct (try_each acc row t rest mk (vis + snd r)) as [more|e|] eqn:E2; cbn [bind] in H; try discriminate.
+  injection H as <- <-. destruct more as [recs' n']. cbn [fst snd].
+  destruct Hin as [->|Hin].
+  - rewrite Hg in E0. injection E0 as <-. rewrite Hw in E1. injection E1 as <-. cbn [fst]. left. reflexivity.
+  - assert (Hr : In (mk j) recs') by (eapply IH; eassumption).
+    destruct (fst r); [right; exact Hr|exact Hr].
+Qed.
+
+Lemma try_each_recs : forall row rest (mk : Z -> record) cands vis recs n,
+  try_each acc row cands rest mk vis = Ok (recs, n) ->
+  (length recs <= length cands)%nat /\ Forall (fun rc => exists j, rc = mk j) recs.
+Proof.
+  intros row rest mk. induction cands as [|j0 t IH]; intros vis recs n H; cbn [try_each] in H.
+  - injection H as <- <-. split; [cbn [length]; lia|constructor].
+  - destruct (py_get row j0) as [nxt0|e|] eqn:E0; cbn [bind] in H; try discriminate.
+    destruct (walk_from acc nxt0 rest 0) as [r|e|] eqn:E1; cbn [bind] in H; try discriminate.
+    destruct (try_each acc row t rest mk (vis + snd r)) as [more|e|] eqn:E2; cbn [bind] in H; try discriminate.
+    injection H as <- <-. destruct more as [recs' n']. cbn [fst snd].
+    destruct (IH _ _ _ E2) as [H1 H2]. destruct (fst r); cbn [length].
+    + split; [lia|constructor; [exists j0; reflexivity|exact H2]].
+    + split; [lia|exact H2].
+Qed.
+
+(* ---- path_matching: the three useful records ---- *)
+Lemma r8_get_mid : forall (b : list Z) x a, py_get (b ++ x :: a) (Z.of_nat (length b)) = Ok x.
+Proof. intros. apply py_get_mid. Qed.
+
+Lemma r8_to_mid : forall (b rest : list Z), py_slice_to (b ++ rest) (Z.of_nat (length b)) = b.
+Proof.
+  intros. rewrite r8_slice_to_nat by (rewrite app_length; lia).
+  rewrite <- (Nat.add_0_r (length b)), firstn_app_2. cbn [firstn]. apply app_nil_r.
+Qed.
+
+Lemma r8_from_mid : forall (b rest : list Z), py_slice_from (b ++ rest) (Z.of_nat (length b)) = rest.
+Proof.
+  intros. rewrite r8_slice_from_nat by (rewrite app_length; lia).
+  rewrite skipn_app, Nat.sub_diag, skipn_all2 by lia. reflexivity.
+Qed.
+
+Lemma r8_from_mid1 : forall (b : list Z) x a, py_slice_from (b ++ x :: a) (Z.of_nat (length b) + 1) = a.
+Proof.
+  intros. replace (b ++ x :: a) with ((b ++ [x]) ++ a) by (rewrite <- app_assoc; reflexivity).
+  replace (Z.of_nat (length b) + 1) with (Z.of_nat (length (b ++ [x]))) by (rewrite app_length; cbn [length]; lia).
+  apply r8_from_mid.
+Qed.
+
+Lemma used_nx : forall u a0, vin k X u -> is_acgt a0 = true -> X (nx k u a0) = true ->
+  In (idx a0) (used_indices (get_row acc u)) /\ py_get (get_row acc u) (idx a0) = Ok (nx k u a0).
+Proof.
+  intros u a0 Hu Ha Hx. pose proof (idx_range a0) as Hj. split.
+  - apply (used_in_iff acc u (idx a0) acc_shaped (vin_in_range u Hu)). split; [exact Hj|].
+    rewrite entry_nx, Hx by exact Hu. apply nx_range.
+  - rewrite (py_get_entry acc u (idx a0) acc_shaped (vin_in_range u Hu) Hj).
+    rewrite entry_nx, Hx by exact Hu. reflexivity.
+Qed.
+
+Lemma pm_sub : forall b c a u a0 indel recs n, vin k X u -> is_acgt a0 = true -> a0 <> c ->
+  X (nx k u a0) = true -> okw (nx k u a0) a ->
+  path_matching (b ++ c :: a) acc u (Z.of_nat (length b)) indel = Ok (recs, n) ->
+  In (0, a0, b ++ a0 :: a) recs.
+Proof.
+  intros b c a u a0 indel recs n Hu Ha Hne Hx Hw H. unfold path_matching in H.
+  rewrite r8_get_mid in H. cbn [bind] in H.
+  rewrite (py_get_row acc u (vin_in_range u Hu)) in H. cbn [bind] in H. cbv zeta in H.
+  rewrite r8_to_mid, r8_from_mid1 in H.
+  destruct (used_nx u a0 Hu Ha Hx) as [Hin Hg]. destruct (idx_char a0 Ha) as [_ Hch].
+  destruct (try_each acc _ (filter _ _) a _ 0) as [[subs n1]|e|] eqn:E1; cbn [bind] in H; try discriminate.
+  assert (Hs : In (0, a0, b ++ a0 :: a) subs).
+  { pose proof (fun m => try_each_in _ _ _ _ _ _ _ (idx a0) (nx k u a0) m E1) as Hi. cbv beta in Hi.
+    rewrite Hch in Hi. eapply Hi.
+    - apply filter_In. split; [exact Hin|]. rewrite Hch. destruct (a0 =? c) eqn:E; [lia|reflexivity].
+    - exact Hg.
+    - apply walk_from_ok; [apply nx_vin; exact Hx|exact Hw]. }
+  destruct indel.
+  - cbn [fst snd] in H.
+    destruct (try_each acc _ _ _ _ n1) as [[ins n2]|e|]; cbn [bind] in H; try discriminate.
+    destruct (walk_from acc u a 0) as [[bd nd]|e|]; cbn [bind] in H; try discriminate.
+    injection H as <- <-. cbn [fst]. apply in_or_app. left. exact Hs.
+  - injection H as <- <-. exact Hs.
+Qed.
+
+Lemma pm_ins : forall b c a u recs n, vin k X u -> okw u a ->
+  path_matching (b ++ c :: a) acc u (Z.of_nat (length b)) true = Ok (recs, n) ->
+  In (2, c, b ++ a) recs.
+Proof.
+  intros b c a u recs n Hu Hw H. unfold path_matching in H.
+  rewrite r8_get_mid in H. cbn [bind] in H.
+  rewrite (py_get_row acc u (vin_in_range u Hu)) in H. cbn [bind] in H. cbv zeta in H.
+  rewrite r8_to_mid, r8_from_mid1 in H.
+  destruct (try_each acc _ (filter _ _) a _ 0) as [[subs n1]|e|] eqn:E1; cbn [bind] in H; try discriminate.
+  cbn [fst snd] in H.
+  destruct (try_each acc _ _ _ _ n1) as [[ins n2]|e|]; cbn [bind] in H; try discriminate.
+  rewrite (walk_from_ok a u 0 Hu Hw) in H. cbn [bind fst snd] in H.
+  injection H as <- <-. apply in_or_app. right. apply in_or_app. right. left. reflexivity.
+Qed.
+
+Lemma pm_del : forall b c a u a0 recs n, vin k X u -> is_acgt a0 = true ->
+  X (nx k u a0) = true -> okw (nx k u a0) (c :: a) ->
+  path_matching (b ++ c :: a) acc u (Z.of_nat (length b)) true = Ok (recs, n) ->
+  In (1, a0, b ++ a0 :: c :: a) recs.
+Proof.
+  intros b c a u a0 recs n Hu Ha Hx Hw H. unfold path_matching in H.
+  rewrite r8_get_mid in H. cbn [bind] in H.
+  rewrite (py_get_row acc u (vin_in_range u Hu)) in H. cbn [bind] in H. cbv zeta in H.
+  rewrite r8_to_mid, r8_from_mid1, r8_from_mid in H.
+  destruct (used_nx u a0 Hu Ha Hx) as [Hin Hg]. destruct (idx_char a0 Ha) as [_ Hch].
+  destruct (try_each acc _ (filter _ _) a _ 0) as [[subs n1]|e|] eqn:E1; cbn [bind] in H; try discriminate.
+  cbn [fst snd] in H.
+  destruct (try_each acc _ _ _ _ n1) as [[ins n2]|e|] eqn:E2; cbn [bind] in H; try discriminate.
+  destruct (walk_from acc u a 0) as [[bd nd]|e|]; cbn [bind] in H; try discriminate.
+  injection H as <- <-. cbn [fst]. apply in_or_app. right. apply in_or_app. left.
+  pose proof (fun m => try_each_in _ _ _ _ _ _ _ (idx a0) (nx k u a0) m E2) as Hi. cbv beta in Hi.
+  rewrite Hch in Hi. eapply Hi; [exact Hin|exact Hg|].
+  apply walk_from_ok; [apply nx_vin; exact Hx|exact Hw].
+Qed.
+
+(* every path_matching call returns at most 8 records, none longer than the chunk plus one *)
+Lemma pm_bounds : forall chunk pv occ indel recs n, acgt chunk -> 0 <= pv < pow4 k ->
+  0 <= occ < Z.of_nat (length chunk) ->
+  path_matching chunk acc pv occ indel = Ok (recs, n) ->
+  (length recs <= 8)%nat /\ Forall (fun rc : record => (length (snd rc) <= length chunk + 1)%nat) recs.
+Proof.
+  intros chunk pv occ indel recs n Hac Hpv Hocc H. unfold path_matching in H.
+  rewrite (py_get_ok chunk occ 0 Hocc) in H. cbn [bind] in H.
+  set (original := nth (Z.to_nat occ) chunk 0) in *.
+  assert (Hor : is_acgt original = true).
+  { unfold acgt in Hac. rewrite Forall_forall in Hac. apply Hac. apply nth_In. lia. }
+  assert (Hr : in_range acc pv) by (unfold in_range; rewrite acc_nrows; exact Hpv).
+  rewrite (py_get_row acc pv Hr) in H. cbn [bind] in H. cbv zeta in H.
+  pose proof (get_row_len acc pv acc_shaped Hr) as Hl.
+  pose proof (filter_used_le3 _ original Hl Hor) as H3.
+  pose proof (used_len_le4 acc pv acc_shaped Hr) as H4.
+  set (before := py_slice_to chunk occ) in *. set (after := py_slice_from chunk (occ + 1)) in *.
+  set (from_occ := py_slice_from chunk occ) in *.
+  assert (Hlb : (length before + length after + 1 <= length chunk)%nat).
+  { unfold before, after, py_slice_to, py_slice_from.
+    pose proof (py_slice_length chunk 0 occ) as L1.
+    pose proof (py_slice_length chunk (occ + 1) (Z.of_nat (length chunk))) as L2.
+    assert (clampZ (Z.of_nat (length chunk)) 0 = 0) as C0 by clamp_cases.
+    assert (clampZ (Z.of_nat (length chunk)) occ = occ) as C1 by clamp_cases.
+    assert (clampZ (Z.of_nat (length chunk)) (occ + 1) = occ + 1) as C2 by clamp_cases.
+    assert (clampZ (Z.of_nat (length chunk)) (Z.of_nat (length chunk)) = Z.of_nat (length chunk)) as C3 by clamp_cases.
+    lia. }
+  assert (Hlf : (length before + length from_occ <= length chunk)%nat).
+  { unfold before, from_occ, py_slice_to, py_slice_from.
+    pose proof (py_slice_length chunk 0 occ) as L1.
+    pose proof (py_slice_length chunk occ (Z.of_nat (length chunk))) as L2.
+    assert (clampZ (Z.of_nat (length chunk)) 0 = 0) as C0 by clamp_cases.
+    assert (clampZ (Z.of_nat (length chunk)) occ = occ) as C1 by clamp_cases.
+    assert (clampZ (Z.of_nat (length chunk)) (Z.of_nat (length chunk)) = Z.of_nat (length chunk)) as C3 by clamp_cases.
+    lia. }
+  destruct (try_each acc _ (filter _ _) after _ 0) as [[subs n1]|e|] eqn:E1; cbn [bind] in H; try discriminate.
+  destruct (try_each_recs _ _ _ _ _ _ _ E1) as [Hs1 Hs2].
+  assert (Hsf : Forall (fun rc : record => (length (snd rc) <= length chunk + 1)%nat) subs).
+  { eapply Forall_impl; [|exact Hs2]. intros rc (j & ->). cbn [snd]. rewrite app_length. cbn [length]. lia. }
+  destruct indel.
+  - cbn [fst snd] in H.
+    destruct (try_each acc _ _ _ _ n1) as [[ins n2]|e|] eqn:E2; cbn [bind] in H; try discriminate.
+    destruct (try_each_recs _ _ _ _ _ _ _ E2) as [Hi1 Hi2].
+    destruct (walk_from acc pv after 0) as [[bd nd]|e|]; cbn [bind] in H; try discriminate.
+    injection H as <- <-. cbn [fst]. split.
+    + rewrite !app_length. destruct bd; cbn [length]; lia.
+    + apply Forall_app. split; [exact Hsf|]. apply Forall_app. split.
+      * eapply Forall_impl; [|exact Hi2]. intros rc (j & ->). cbn [snd]. rewrite app_length. cbn [length]. lia.
+      * destruct bd; [|constructor]. constructor; [|constructor]. cbn [snd]. rewrite app_length. lia.
+  - injection H as <- <-. split; [lia|exact Hsf].
+Qed.
+
+(* ========================================================================================== *)
+(* Part 4: the scan loop on a walkable stretch, and one detection step                        *)
+(* ========================================================================================== *)
+Fixpoint fill (iq : list Z) (i : nat) (v : Z) (t : list Z) : list Z :=
+  match t with [] => iq | c :: t' => fill (set_nth iq i (nx k v c)) (S i) (nx k v c) t' end.
+
+Lemma fill_length : forall t iq i v, length (fill iq i v t) = length iq.
+Proof.
+  induction t as [|c t IH]; intros iq i v; cbn [fill]; [reflexivity|]. rewrite IH. apply set_nth_length.
+Qed.
+
+Lemma fill_before : forall t iq i v j d, (j < i)%nat -> nth j (fill iq i v t) d = nth j iq d.
+Proof.
+  induction t as [|c t IH]; intros iq i v j d H; cbn [fill]; [reflexivity|].
+  rewrite IH by lia. apply r8_set_nth_other. lia.
+Qed.
+
+Lemma fill_nth : forall t iq i v j d, (j < length t)%nat -> (i + length t <= length iq)%nat ->
+  nth (i + j) (fill iq i v t) d = stt k v (firstn (S j) t).
+Proof.
+  induction t as [|c t IH]; intros iq i v j d Hj Hl; cbn [length] in *; [lia|]. cbn [fill].
+  destruct j as [|j].
+  - rewrite Nat.add_0_r, fill_before by lia. rewrite r8_set_nth_same by lia. reflexivity.
+  - replace (i + S j)%nat with (S i + j)%nat by lia. rewrite IH; [|lia|rewrite set_nth_length; lia].
+    reflexivity.
+Qed.
+
+Lemma fill_vok : forall t iq i v, Forall (vok acc) iq -> Forall (vok acc) (fill iq i v t).
+Proof.
+  induction t as [|c t IH]; intros iq i v H; cbn [fill]; [exact H|]. apply IH.
+  apply set_nth_Forall; [exact H|]. apply range_vok. apply nx_range.
+Qed.
+
+Lemma scan_run : forall s K m fuel i v iq cur sp ch mk d vis,
+  (i + m <= length s)%nat -> vin k X v -> okw v (firstn m (skipn i s)) ->
+  scan_loop (m + fuel) s acc K (Z.of_nat i) v iq cur
+     {| sc_splits := sp; sc_chunks := ch; sc_markers := mk; sc_detected := d; sc_visited := vis |} =
+  scan_loop fuel s acc K (Z.of_nat (i + m)) (stt k v (firstn m (skipn i s)))
+     (fill iq i v (firstn m (skipn i s))) (cur ++ firstn m (skipn i s))
+     {| sc_splits := sp; sc_chunks := ch; sc_markers := mk; sc_detected := d; sc_visited := vis + Z.of_nat m |}.
+Proof.
+  intros s K. induction m as [|m IH]; intros fuel i v iq cur sp ch mk d vis Hi Hv Hw.
+  - cbn [firstn fill Nat.add]. rewrite stt_nil, app_nil_r, Nat.add_0_r. change (Z.of_nat 0) with 0.
+    rewrite Z.add_0_r. reflexivity.
+  - rewrite (skipn_nth s i) in * by lia. cbn [firstn] in *. destruct Hw as (Hc & Hx & Hw).
+    cbn [Nat.add]. rewrite scan_loop_step by lia.
+    rewrite (py_get_ok s (Z.of_nat i) 0) by lia. rewrite Nat2Z.id. cbn [bind].
+    rewrite (step_ok8 v _ Hv Hc Hx). cbn [bind sc_splits sc_chunks sc_markers sc_detected sc_visited].
+    replace (Z.of_nat i + 1) with (Z.of_nat (S i)) by lia.
+    rewrite IH; [|lia|apply nx_vin; exact Hx|exact Hw].
+    rewrite stt_cons. cbn [fill]. rewrite <- app_assoc. cbn [app].
+    replace (S i + m)%nat with (i + S m)%nat by lia.
+    replace (vis + 1 + Z.of_nat m) with (vis + Z.of_nat (S m)) by lia. reflexivity.
+Qed.
+
+Lemma r8_firstn_S : forall (l : list Z) m, (m < length l)%nat -> firstn (S m) l = firstn m l ++ [nth m l 0].
+Proof.
+  induction l as [|x l IH]; intros m H; cbn [length] in H; [lia|].
+  destruct m as [|m]; [reflexivity|]. cbn [firstn nth app]. f_equal. apply IH. lia.
+Qed.
+
+Lemma acgt_firstn : forall n t, acgt t -> acgt (firstn n t).
+Proof. intros. unfold acgt in *. apply rp_Forall_firstn. assumption. Qed.
+
+Lemma acgt_skipn : forall n t, acgt t -> acgt (skipn n t).
+Proof. intros. unfold acgt in *. apply rp_Forall_skipn. assumption. Qed.
+
+Lemma acgt_nth : forall t i, acgt t -> (i < length t)%nat -> is_acgt (nth i t 0) = true.
+Proof. intros t i H Hi. unfold acgt in H. rewrite Forall_forall in H. apply H. apply nth_In. exact Hi. Qed.
+
+Lemma scan_detect : forall s f l v iq cur sp ch mk d vis,
+  acgt s -> (k <= l)%nat -> (l + k + 1 <= length s)%nat -> vin k X v -> X (nx k v (nth l s 0)) = false ->
+  length cur = l -> length iq = length s ->
+  scan_loop (S f) s acc (Z.of_nat k) (Z.of_nat l) v iq cur
+     {| sc_splits := sp; sc_chunks := ch; sc_markers := mk; sc_detected := d; sc_visited := vis |} =
+  scan_loop f s acc (Z.of_nat k) (Z.of_nat (l + k + 1)) (kval (firstn k (skipn (S l) s))) iq [nth (l + k) s 0]
+     {| sc_splits := firstn (l + 1 - k) cur :: sp;
+        sc_chunks := ch ++ [firstn (2 * k - 1) (skipn (l + 1 - k) s)];
+        sc_markers := mk ++ [firstn k (skipn (l - k) iq)];
+        sc_detected := d + 1; sc_visited := vis |}.
+Proof.
+  intros s f l v iq cur sp ch mk d vis Ha Hkl Hls Hv Hx Hcur Hiq.
+  rewrite scan_loop_step by lia.
+  rewrite (py_get_ok s (Z.of_nat l) 0) by lia. rewrite Nat2Z.id. cbn [bind].
+  rewrite (step_fail8 v _ Hv (acgt_nth s l Ha ltac:(lia)) Hx). cbn [bind sc_splits sc_chunks sc_markers sc_detected sc_visited].
+  replace (Z.of_nat l + 1) with (Z.of_nat (S l)) by lia.
+  replace (Z.of_nat l + Z.of_nat k + 1) with (Z.of_nat (l + k + 1)) by lia.
+  rewrite (r8_slice_nat s (S l) (l + k + 1)) by lia.
+  replace (l + k + 1 - S l)%nat with k by lia.
+  set (t := firstn k (skipn (S l) s)).
+  assert (Hat : acgt t) by (apply acgt_firstn, acgt_skipn; exact Ha).
+  rewrite (dna_int_kval t Hat). cbn [bind].
+  assert (Hlast : nuc_char (kval t mod 4) = nth (l + k) s 0).
+  { unfold t. replace k with (S (k - 1)) at 1 by lia.
+    rewrite r8_firstn_S by (rewrite skipn_length; lia).
+    rewrite kval_mod4, r8_nth_skipn. replace (S l + (k - 1))%nat with (l + k)%nat by lia.
+    apply idx_char. apply acgt_nth; [exact Ha|lia]. }
+  rewrite Hlast.
+  replace (Z.of_nat (length cur) - Z.of_nat k + 1) with (Z.of_nat (l + 1 - k)) by lia.
+  rewrite (r8_slice_to_nat cur (l + 1 - k)) by lia.
+  replace (Z.of_nat l - Z.of_nat k + 1) with (Z.of_nat (l + 1 - k)) by lia.
+  replace (Z.of_nat l + Z.of_nat k) with (Z.of_nat (l + k)) by lia.
+  rewrite (r8_slice_nat s (l + 1 - k) (l + k)) by lia.
+  replace (l + k - (l + 1 - k))%nat with (2 * k - 1)%nat by lia.
+  replace (Z.of_nat l - Z.of_nat k) with (Z.of_nat (l - k)) by lia.
+  rewrite (r8_slice_nat iq (l - k) l) by lia.
+  replace (l - (l - k))%nat with k by lia.
+  reflexivity.
+Qed.
+
+(* ========================================================================================== *)
+(* Part 5: the fragment set                                                                   *)
+(* ========================================================================================== *)
+Lemma listZ_eqb_len : forall a b, listZ_eqb a b = true -> length a = length b.
+Proof. intros a b H. apply listZ_eqb_true in H. subst. reflexivity. Qed.
+
+Lemma mem_str_false : forall whole fs, (forall f, In f fs -> (length f < length whole)%nat) -> mem_str whole fs = false.
+Proof.
+  intros whole. induction fs as [|h t IH]; intros H; cbn [mem_str]; [reflexivity|].
+  rewrite IH by (intros f Hf; apply H; right; exact Hf).
+  destruct (listZ_eqb whole h) eqn:E; [|reflexivity].
+  apply listZ_eqb_len in E. specialize (H h (or_introl eq_refl)). lia.
+Qed.
+
+Lemma insert_str_len : forall s l, (length (insert_str s l) <= S (length l))%nat.
+Proof.
+  intros s. induction l as [|h t IH]; cbn [insert_str length]; [lia|].
+  destruct (lexltb s h); [cbn [length]; lia|]. destruct (listZ_eqb s h); cbn [length]; lia.
+Qed.
+
+Lemma fold_ins_spec : forall whole B (recs : list record) frags, (B < length whole)%nat ->
+  (forall f, In f frags -> (length f <= B)%nat) ->
+  Forall (fun rc : record => (length (snd rc) <= B)%nat) recs ->
+  let fs := fold_left (fun fs (rc : record) => if mem_str whole fs then fs else insert_str (snd rc) fs) recs frags in
+  (forall f, In f fs <-> In f frags \/ exists rc, In rc recs /\ snd rc = f) /\
+  (length fs <= length frags + length recs)%nat.
+Proof.
+  intros whole B. induction recs as [|rc recs IH]; intros frags HB Hf Hr; cbn [fold_left]; cbv zeta.
+  - split; [|lia]. intros f. split; [intros H; left; exact H|]. intros [H|(rc & [] & _)]. exact H.
+  - inversion Hr as [|? ? Hrc Hrs]; subst.
+    rewrite mem_str_false by (intros f Hfi; specialize (Hf f Hfi); lia).
+    assert (Hf' : forall f, In f (insert_str (snd rc) frags) -> (length f <= B)%nat).
+    { intros f Hi. apply insert_str_in in Hi. destruct Hi as [->|Hi]; [exact Hrc|apply Hf; exact Hi]. }
+    destruct (IH (insert_str (snd rc) frags) HB Hf' Hrs) as [H1 H2]. split.
+    + intros f. rewrite H1, insert_str_in. split.
+      * intros [[->|H]|(rc' & Hi & He)].
+        -- right. exists rc. split; [left; reflexivity|reflexivity].
+        -- left. exact H.
+        -- right. exists rc'. split; [right; exact Hi|exact He].
+      * intros [H|(rc' & [->|Hi] & He)].
+        -- left. right. exact H.
+        -- left. left. symmetry. exact He.
+        -- right. exists rc'. split; [exact Hi|exact He].
+    + pose proof (insert_str_len (snd rc) frags). cbn [length]. lia.
+Qed.
+
+Lemma fragments_of_spec : forall chunk K indel whole, acgt chunk -> (length chunk + 1 < length whole)%nat ->
+  K <= Z.of_nat (length chunk) ->
+  forall rmarker recall frags vis fs n,
+  fragments_of chunk acc K indel whole rmarker recall frags vis = Ok (fs, n) ->
+  Forall (fun pv => 0 <= pv < pow4 k) rmarker -> 0 <= recall -> recall + Z.of_nat (length rmarker) <= K ->
+  (forall f, In f frags -> (length f <= length chunk + 1)%nat) ->
+  (forall f, In f frags -> In f fs) /\
+  (forall i pv recs n' rc, nth_error rmarker i = Some pv ->
+     path_matching chunk acc pv (K - (recall + Z.of_nat i) - 1) indel = Ok (recs, n') -> In rc recs -> In (snd rc) fs) /\
+  (length fs <= length frags + 8 * length rmarker)%nat.
+Proof.
+  intros chunk K indel whole Hac HB HK.
+  induction rmarker as [|pv t IH]; intros recall frags vis fs n H Hm Hr Hb Hf; cbn [fragments_of] in H.
+  - injection H as <- <-. split; [auto|]. split; [|cbn [length]; lia].
+    intros i pv recs n' rc Hn. destruct i; discriminate.
+  - inversion Hm as [|? ? Hpv Ht]; subst. cbn [length] in Hb. rewrite Nat2Z.inj_succ in Hb.
+    destruct (path_matching chunk acc pv (K - recall - 1) indel) as [[recs1 n1]|e|] eqn:E1; cbn [bind] in H; try discriminate.
+    cbv zeta in H. cbn [fst snd] in H.
+    destruct (pm_bounds chunk pv (K - recall - 1) indel recs1 n1 Hac Hpv ltac:(lia) E1) as [Hc1 Hc2].
+    destruct (fold_ins_spec whole (length chunk + 1) recs1 frags HB Hf Hc2) as [F1 F2]. cbv zeta in F1, F2.
+    set (frags' := fold_left _ recs1 frags) in *.
+    assert (Hf' : forall f, In f frags' -> (length f <= length chunk + 1)%nat).
+    { intros f Hi. apply F1 in Hi. destruct Hi as [Hi|(rc & Hi & <-)]; [apply Hf; exact Hi|].
+      rewrite Forall_forall in Hc2. apply Hc2. exact Hi. }
+    destruct (IH (recall + 1) frags' _ fs n H Ht ltac:(lia) ltac:(lia) Hf') as (I1 & I2 & I3).
+    split; [|split].
+    + intros f Hi. apply I1. apply F1. left. exact Hi.
+    + intros i pv' recs n' rc Hn Hp Hi. destruct i as [|i].
+      * cbn [nth_error] in Hn. injection Hn as <-.
+        replace (K - (recall + Z.of_nat 0) - 1) with (K - recall - 1) in Hp by lia.
+        rewrite E1 in Hp. injection Hp as <- <-. apply I1. apply F1. right. exists rc. split; [exact Hi|reflexivity].
+      * cbn [nth_error] in Hn. apply (I2 i pv' recs n' rc Hn); [|exact Hi].
+        replace (K - (recall + 1 + Z.of_nat i) - 1) with (K - (recall + Z.of_nat (S i)) - 1) by lia. exact Hp.
+    + cbn [length]. lia.
+Qed.
+
+(* ---- the check filter keeps a candidate whose check matches ---- *)
+Lemma filter_checked_in : forall vt l r c, filter_checked vt l = Ok r -> In c l -> check_matches vt c = Ok true ->
+  In c (fst r).
+Proof.
+  intros vt. induction l as [|a l IH]; intros r c H Hin Hc; [destruct Hin|]. cbn [filter_checked] in H.
+  destruct (check_matches vt a) as [ok|e|] eqn:E; cbn [bind] in H; try discriminate.
+  destruct (filter_checked vt l) as [r'|e|] eqn:E2; cbn [bind] in H; try discriminate.
+  injection H as <-. destruct Hin as [->|Hin].
+  - rewrite Hc in E. injection E as <-. cbn [fst]. left. reflexivity.
+  - specialize (IH r' c eq_refl Hin Hc). destruct ok; cbn [fst]; [right; exact IH|exact IH].
+Qed.
+
+(* ========================================================================================== *)
+(* Part 6: exactly one detection at position l, and the repaired candidates                   *)
+(* ========================================================================================== *)
+Lemma check_of_matches : forall w vt, check_of w vt -> check_matches vt w = Ok true.
+Proof.
+  intros w vt [->|(n & chk & Hn & E & ->)]; [reflexivity|]. unfold check_matches.
+  destruct (set_vt_length w n chk Hn E) as [Hl _]. rewrite Hl, E. cbn [bind]. rewrite rp_eqb_refl. reflexivity.
+Qed.
+
+Definition sig (v0 : Z) (s : list Z) (i : nat) : Z := stt k v0 (firstn i s).
+
+Lemma sig_S : forall v0 s i, (i < length s)%nat -> sig v0 s (S i) = nx k (sig v0 s i) (nth i s 0).
+Proof. intros v0 s i H. unfold sig. rewrite r8_firstn_S by exact H. apply stt_snoc. Qed.
+
+Lemma sig_add : forall v0 s i m, sig v0 s (i + m) = stt k (sig v0 s i) (firstn m (skipn i s)).
+Proof. intros. unfold sig. rewrite r8_firstn_add. apply stt_app. Qed.
+
+Lemma sig_range : forall v0 s i, 0 <= v0 < pow4 k -> 0 <= sig v0 s i < pow4 k.
+Proof. intros. unfold sig. apply stt_range. assumption. Qed.
+
+Lemma scan_single : forall s v0 l, vin k X v0 -> acgt s -> (k <= l)%nat -> (l + k + 1 <= length s)%nat ->
+  okw v0 (firstn l s) -> X (sig v0 s (S l)) = false ->
+  X (sig v0 s (l + k + 1)) = true -> okw (sig v0 s (l + k + 1)) (skipn (l + k + 1) s) ->
+  scan_loop (S (length s)) s acc (Z.of_nat k) 0 v0 (repeat (-1) (length s)) []
+     {| sc_splits := []; sc_chunks := []; sc_markers := []; sc_detected := 0; sc_visited := 0 |} =
+  Ok {| sc_splits := [skipn (l + k) s; firstn (l + 1 - k) s];
+        sc_chunks := [firstn (2 * k - 1) (skipn (l + 1 - k) s)];
+        sc_markers := [firstn k (skipn (l - k) (fill (repeat (-1) (length s)) 0 v0 (firstn l s)))];
+        sc_detected := 1; sc_visited := Z.of_nat l + Z.of_nat (length s - (l + k + 1)) |}.
+Proof.
+  intros s v0 l Hv0 Ha Hkl Hls Hpre Hfail Hres Hsuf.
+  replace (S (length s)) with (l + S (length s - l))%nat by lia.
+  pose proof (scan_run s (Z.of_nat k) l (S (length s - l)) 0 v0 (repeat (-1) (length s)) [] [] [] [] 0 0
+                ltac:(lia) Hv0 Hpre) as E1.
+  cbn [skipn app Nat.add] in E1. change (Z.of_nat 0) with 0 in E1. rewrite E1. clear E1.
+  set (iq1 := fill (repeat (-1) (length s)) 0 v0 (firstn l s)).
+  fold (sig v0 s l).
+  assert (Hv1 : vin k X (sig v0 s l)) by (apply okw_vin; assumption).
+  rewrite sig_S in Hfail by lia.
+  rewrite (scan_detect s (length s - l) l (sig v0 s l) iq1 (firstn l s) [] [] [] 0 (0 + Z.of_nat l)
+             Ha Hkl Hls Hv1 Hfail ltac:(apply firstn_length_le; lia)
+             ltac:(unfold iq1; rewrite fill_length, repeat_length; reflexivity)).
+  assert (Hv2 : kval (firstn k (skipn (S l) s)) = sig v0 s (l + k + 1)).
+  { replace (l + k + 1)%nat with (S l + k)%nat by lia. rewrite sig_add. symmetry. apply stt_kval.
+    - apply firstn_length_le. rewrite skipn_length. lia.
+    - apply sig_range. apply Hv0. }
+  rewrite Hv2.
+  replace (length s - l)%nat with ((length s - (l + k + 1)) + (k + 1))%nat by lia.
+  assert (Hfs : firstn (length s - (l + k + 1)) (skipn (l + k + 1) s) = skipn (l + k + 1) s).
+  { apply firstn_all2. rewrite skipn_length. lia. }
+  rewrite (scan_run s (Z.of_nat k) (length s - (l + k + 1)) (k + 1) (l + k + 1) (sig v0 s (l + k + 1)) iq1);
+    [|lia|split; [apply sig_range; apply Hv0|exact Hres]|rewrite Hfs; exact Hsuf].
+  rewrite Hfs. rewrite scan_loop_done by lia.
+  cbn [sc_splits sc_chunks sc_markers sc_detected sc_visited app].
+  rewrite firstn_firstn, Nat.min_l by lia.
+  rewrite (skipn_nth s (l + k)) by lia.
+  replace (S (l + k)) with (l + k + 1)%nat by lia.
+  reflexivity.
+Qed.
+
+Theorem detect_gen : forall s w v0 l r vt indel heap,
+  vin k X v0 -> acgt s -> (k <= l)%nat -> (l + k + 1 <= length s)%nat ->
+  okw v0 (firstn l s) -> X (sig v0 s (S l)) = false ->
+  X (sig v0 s (l + k + 1)) = true -> okw (sig v0 s (l + k + 1)) (skipn (l + k + 1) s) ->
+  (r < k)%nat ->
+  (forall recs n, path_matching (firstn (2 * k - 1) (skipn (l + 1 - k) s)) acc (sig v0 s (l - r))
+                    (Z.of_nat k - Z.of_nat r - 1) indel = Ok (recs, n) ->
+     exists rc, In rc recs /\ firstn (l + 1 - k) s ++ snd rc ++ skipn (l + k) s = w) ->
+  check_of w vt -> 8 * Z.of_nat k <= heap ->
+  exists cands st, repair_dna s acc v0 (Z.of_nat k) vt indel heap = Ok (cands, st) /\ detected st = 1 /\ In w cands.
+Proof.
+  intros s w v0 l r vt indel heap Hv0 Ha Hkl Hls Hpre Hfail Hres Hsuf Hr Hpm Hchk Hheap.
+  unfold repair_dna. cbv zeta.
+  rewrite (scan_single s v0 l Hv0 Ha Hkl Hls Hpre Hfail Hres Hsuf).
+  cbn [bind sc_splits sc_chunks sc_markers sc_detected sc_visited all_fragments].
+  set (iq1 := fill (repeat (-1) (length s)) 0 v0 (firstn l s)).
+  set (chunk := firstn (2 * k - 1) (skipn (l + 1 - k) s)) in *.
+  set (marker := firstn k (skipn (l - k) iq1)).
+  set (vis := Z.of_nat l + Z.of_nat (length s - (l + k + 1))).
+  assert (Hiq1 : length iq1 = length s) by (unfold iq1; rewrite fill_length, repeat_length; reflexivity).
+  assert (Hlc : length chunk = (2 * k - 1)%nat).
+  { unfold chunk. apply firstn_length_le. rewrite skipn_length. lia. }
+  assert (Hlm : length marker = k).
+  { unfold marker. apply firstn_length_le. rewrite skipn_length. lia. }
+  assert (Hac : acgt chunk) by (apply acgt_firstn, acgt_skipn; exact Ha).
+  assert (Hvm : Forall (vok acc) marker).
+  { unfold marker. apply rp_Forall_firstn, rp_Forall_skipn. unfold iq1. apply fill_vok.
+    apply Forall_forall. intros x Hx. apply repeat_spec in Hx. subst x. unfold vok. pose proof acc_pos. lia. }
+  assert (Hrm : Forall (fun pv => 0 <= pv < pow4 k) (rev marker)).
+  { apply Forall_rev. apply Forall_forall. intros x Hx.
+    destruct (In_nth marker x 0 Hx) as (i & Hi & <-). rewrite Hlm in Hi.
+    unfold marker. rewrite r8_nth_firstn by exact Hi. rewrite r8_nth_skipn.
+    unfold iq1. pose proof (fill_nth (firstn l s) (repeat (-1) (length s)) 0 v0 (l - k + i) 0) as Hn.
+    cbn [Nat.add] in Hn. rewrite Hn.
+    - apply stt_range. apply Hv0.
+    - rewrite firstn_length_le by lia. lia.
+    - rewrite firstn_length_le, repeat_length by lia. lia. }
+  destruct (fragments_of_total acc acc_shaped acc_pos chunk (Z.of_nat k) indel s Hac ltac:(lia)
+              (rev marker) 0 [] vis (Forall_rev Hvm) ltac:(lia) ltac:(rewrite rev_length; lia) ltac:(constructor))
+    as (fs & n1 & E1 & _ & Hfs).
+  rewrite E1. cbn [bind fst snd fold_left].
+  destruct (fragments_of_spec chunk (Z.of_nat k) indel s Hac ltac:(lia) ltac:(lia) (rev marker) 0 [] vis fs n1 E1 Hrm
+              ltac:(lia) ltac:(rewrite rev_length; lia) ltac:(intros f [])) as (_ & I2 & I3).
+  (* the marker entry addressed by recall r *)
+  assert (Hnth : nth_error (rev marker) r = Some (sig v0 s (l - r))).
+  { rewrite (nth_error_nth' (rev marker) 0) by (rewrite rev_length; lia). f_equal.
+    rewrite rev_nth by lia. rewrite Hlm. unfold marker.
+    rewrite r8_nth_firstn by lia. rewrite r8_nth_skipn.
+    unfold iq1. pose proof (fill_nth (firstn l s) (repeat (-1) (length s)) 0 v0 (l - k + (k - S r)) 0) as Hn.
+    cbn [Nat.add] in Hn. rewrite Hn.
+    - rewrite firstn_firstn, Nat.min_l by lia. unfold sig. f_equal. f_equal. lia.
+    - rewrite firstn_length_le by lia. lia.
+    - rewrite firstn_length_le, repeat_length by lia. lia. }
+  destruct (path_matching_total acc acc_shaped acc_pos chunk (sig v0 s (l - r)) (Z.of_nat k - Z.of_nat r - 1) indel Hac
+              (range_vok _ (sig_range v0 s (l - r) (proj1 Hv0))) ltac:(lia)) as (recs & n2 & E2 & _).
+  destruct (Hpm recs n2 E2) as (rc & Hrc & Hw).
+  assert (Hin : In (snd rc) fs).
+  { apply (I2 r (sig v0 s (l - r)) recs n2 rc Hnth); [|exact Hrc].
+    replace (Z.of_nat k - (0 + Z.of_nat r) - 1) with (Z.of_nat k - Z.of_nat r - 1) by lia. exact E2. }
+  assert (Hcnt : 1 <= 1 * Z.of_nat (length fs) <= heap).
+  { rewrite rev_length, Hlm in I3. cbn [length] in I3. destruct fs as [|f0 fs']; [destruct Hin|]. cbn [length] in *. lia. }
+  destruct (1 * Z.of_nat (length fs) =? 0) eqn:Ec; [lia|].
+  destruct (heap <? 1 * Z.of_nat (length fs)) eqn:Eh; [lia|]. cbn [orb].
+  cbn [rev app recombine flat_map].
+  set (cut := firstn (l + 1 - k) s) in *. set (tail := skipn (l + k) s) in *.
+  assert (Hall : Forall acgt (map (fun f => cut ++ f ++ tail) fs ++ [])).
+  { rewrite app_nil_r. apply Forall_forall. intros x Hx. apply in_map_iff in Hx. destruct Hx as (f & <- & Hf).
+    rewrite Forall_forall in Hfs. unfold acgt. apply Forall_app. split; [apply acgt_firstn; exact Ha|].
+    apply Forall_app. split; [apply Hfs; exact Hf|apply acgt_skipn; exact Ha]. }
+  destruct (filter_checked_total vt _ Hall) as (res & E3). rewrite E3. cbn [bind].
+  eexists. eexists. split; [reflexivity|]. split; [reflexivity|].
+  apply (proj2 (sort_dedup_sorted (fst res))).
+  apply (filter_checked_in vt _ res w E3); [|apply check_of_matches; exact Hchk].
+  apply in_or_app. left. apply in_map_iff. exists (snd rc). split; [exact Hw|exact Hin].
+Qed.
+
+(* ========================================================================================== *)
+(* Part 7: one edit  w = A ++ B1 ++ C  |->  s = A ++ B2 ++ C                                   *)
+(* ========================================================================================== *)
+Lemma okw_firstn : forall n t v, okw v t -> okw v (firstn n t).
+Proof.
+  intros n t v H. rewrite <- (firstn_skipn n t) in H. apply okw_app in H. apply H.
+Qed.
+
+Lemma okw_prefix : forall v0 s l, acgt s -> (l <= length s)%nat ->
+  (forall j, (j < l)%nat -> X (sig v0 s (S j)) = true) -> okw v0 (firstn l s).
+Proof.
+  intros v0 s l Ha Hl H. apply okw_pos. split; [apply acgt_firstn; exact Ha|].
+  intros j Hj. rewrite firstn_length_le in Hj by exact Hl.
+  rewrite firstn_firstn, Nat.min_l by lia. apply H. exact Hj.
+Qed.
+
+Lemma okw_suffix : forall v0 s i, acgt s -> (i <= length s)%nat ->
+  (forall j, (i < j)%nat -> (j <= length s)%nat -> X (sig v0 s j) = true) -> okw (sig v0 s i) (skipn i s).
+Proof.
+  intros v0 s i Ha Hi H. apply okw_pos. split; [apply acgt_skipn; exact Ha|].
+  intros j Hj. rewrite skipn_length in Hj. rewrite <- sig_add. apply H; lia.
+Qed.
+
+Section Edit.
+Variables (v0 : Z) (A B1 B2 C : list Z).
+Hypothesis Hv0 : vin k X v0.
+Hypothesis Hw : okw v0 (A ++ B1 ++ C).
+Hypothesis HB2 : acgt B2.
+Hypothesis HkA : (k <= length A)%nat.
+
+Lemma edit_before : forall i, (i <= length A)%nat -> sig v0 (A ++ B2 ++ C) i = sig v0 (A ++ B1 ++ C) i.
+Proof.
+  intros i Hi. unfold sig. rewrite !firstn_app. replace (i - length A)%nat with 0%nat by lia. reflexivity.
+Qed.
+
+Lemma edit_after : forall q, (k <= q)%nat -> (q <= length C)%nat ->
+  sig v0 (A ++ B2 ++ C) (length A + (length B2 + q)) = sig v0 (A ++ B1 ++ C) (length A + (length B1 + q)).
+Proof.
+  intros q Hq HqC. unfold sig. rewrite !firstn_app_2. rewrite !app_assoc. rewrite !stt_app.
+  apply stt_forget.
+  - rewrite firstn_length_le by exact HqC. exact Hq.
+  - rewrite <- stt_app. apply stt_range. apply Hv0.
+  - rewrite <- stt_app. apply stt_range. apply Hv0.
+Qed.
+
+Lemma edit_w_states : forall i, (i <= length (A ++ B1 ++ C))%nat -> X (sig v0 (A ++ B1 ++ C) i) = true.
+Proof.
+  intros i Hi. destruct i as [|i]; [apply Hv0|].
+  apply (proj1 (okw_pos _ _) Hw). lia.
+Qed.
+
+Lemma edit_window : forall l, (l < length (A ++ B2 ++ C))%nat -> X (sig v0 (A ++ B2 ++ C) (S l)) = false ->
+  (length A <= l)%nat /\ (S l < length A + length B2 + k)%nat.
+Proof.
+  intros l Hl Hf. rewrite !app_length in Hl. split.
+  - destruct (le_lt_dec (length A) l) as [H|H]; [exact H|].
+    rewrite edit_before in Hf by lia. rewrite edit_w_states in Hf; [discriminate|]. rewrite app_length. lia.
+  - destruct (le_lt_dec (length A + length B2 + k) (S l)) as [H|H]; [|exact H].
+    replace (S l) with (length A + (length B2 + (S l - length A - length B2)))%nat in Hf by lia.
+    rewrite edit_after in Hf by lia. rewrite edit_w_states in Hf; [discriminate|]. rewrite !app_length. lia.
+Qed.
+
+Lemma edit_resume : forall i, (length A + length B2 + k <= i)%nat -> (i <= length (A ++ B2 ++ C))%nat ->
+  X (sig v0 (A ++ B2 ++ C) i) = true.
+Proof.
+  intros i Hi Hl. rewrite !app_length in Hl.
+  replace i with (length A + (length B2 + (i - length A - length B2)))%nat by lia.
+  rewrite edit_after by lia. apply edit_w_states. rewrite !app_length. lia.
+Qed.
+
+Hypothesis HC : (2 * k <= length C)%nat.
+Hypothesis HlB2 : (length B2 <= 1)%nat.
+
+Theorem edit_gen : forall vt indel heap,
+  (forall l recs n, (length A <= l)%nat -> (S l < length A + length B2 + k)%nat ->
+     path_matching (firstn (2 * k - 1) (skipn (l + 1 - k) (A ++ B2 ++ C))) acc (stt k v0 A)
+       (Z.of_nat k - Z.of_nat (l - length A) - 1) indel = Ok (recs, n) ->
+     exists rc, In rc recs /\
+       firstn (l + 1 - k) (A ++ B2 ++ C) ++ snd rc ++ skipn (l + k) (A ++ B2 ++ C) = A ++ B1 ++ C) ->
+  check_of (A ++ B1 ++ C) vt -> 8 * Z.of_nat k <= heap ->
+  exists cands st, repair_dna (A ++ B2 ++ C) acc v0 (Z.of_nat k) vt indel heap = Ok (cands, st)
+     /\ (detected st = 1 <-> ~ is_walk acc v0 (A ++ B2 ++ C))
+     /\ (is_walk acc v0 (A ++ B2 ++ C) -> detected st = 0)
+     /\ (~ is_walk acc v0 (A ++ B2 ++ C) -> In (A ++ B1 ++ C) cands).
+Proof.
+  intros vt indel heap Hpm Hchk Hheap.
+  set (s := A ++ B2 ++ C) in *. set (w := A ++ B1 ++ C) in *.
+  assert (Has : acgt s).
+  { pose proof (okw_acgt _ _ Hw) as Haw. unfold w, s, acgt in *. apply Forall_app in Haw. destruct Haw as [H1 H2].
+    apply Forall_app in H2. destruct H2 as [_ H2]. apply Forall_app. split; [exact H1|].
+    apply Forall_app. split; [exact HB2|exact H2]. }
+  assert (Hls : length s = (length A + length B2 + length C)%nat) by (unfold s; rewrite !app_length; lia).
+  destruct (r8_first_fail (fun j => X (sig v0 s (S j))) (length s)) as [Hall|(l & Hl & Hbefore & Hfail)].
+  - (* the corrupted strand is still a walk *)
+    assert (Hok : okw v0 s).
+    { rewrite <- (firstn_all s). apply okw_prefix; [exact Has|lia|exact Hall]. }
+    assert (Hwalk : is_walk acc v0 s) by (apply is_walk_okw; assumption).
+    destruct (repair_clean s acc v0 (Z.of_nat k) vt indel heap acc_shaped (vin_in_range v0 Hv0) Hwalk)
+      as (flag & count & visited & E).
+    eexists. eexists. split; [exact E|]. cbn [detected]. split; [|split].
+    + split; [discriminate|]. intros Hn. exfalso. apply Hn. exact Hwalk.
+    + reflexivity.
+    + intros Hn. exfalso. apply Hn. exact Hwalk.
+  - (* first failing position l *)
+    cbv beta in Hbefore, Hfail.
+    destruct (edit_window l Hl Hfail) as [HAl HlA]. fold s in Hfail.
+    assert (Hnw : ~ is_walk acc v0 s).
+    { intros Hwalk. apply is_walk_okw in Hwalk; [|exact Hv0]. apply okw_pos in Hwalk. destruct Hwalk as [_ Hwalk].
+      specialize (Hwalk l Hl). unfold sig in Hfail. congruence. }
+    assert (Hres : forall i, (l + k + 1 <= i)%nat -> (i <= length s)%nat -> X (sig v0 s i) = true).
+    { intros i Hi1 Hi2. apply edit_resume; [lia|exact Hi2]. }
+    destruct (detect_gen s w v0 l (l - length A) vt indel heap Hv0 Has ltac:(lia) ltac:(lia)) as (cands & st & E & Hd & Hin).
+    + apply okw_prefix; [exact Has|lia|exact Hbefore].
+    + exact Hfail.
+    + apply Hres; lia.
+    + apply okw_suffix; [exact Has|lia|]. intros j Hj1 Hj2. apply Hres; lia.
+    + lia.
+    + intros recs n Hp. apply (Hpm l recs n HAl HlA).
+      replace (l - (l - length A))%nat with (length A) in Hp by lia.
+      unfold sig in Hp. unfold s in Hp at 2. rewrite firstn_app, Nat.sub_diag, firstn_all in Hp.
+      cbn [firstn] in Hp. rewrite app_nil_r in Hp. exact Hp.
+    + exact Hchk.
+    + exact Hheap.
+    + exists cands, st. split; [exact E|]. split; [|split].
+      * split; [intros _; exact Hnw|intros _; exact Hd].
+      * intros Hwalk. exfalso. apply Hnw. exact Hwalk.
+      * intros _. exact Hin.
+Qed.
+
+End Edit.
+
+(* ========================================================================================== *)
+(* Part 8: the repair record for each kind of edit                                            *)
+(* ========================================================================================== *)
+Lemma chunk_split : forall (A B2 C : list Z) l, (length A <= l)%nat -> (S l < length A + length B2 + k)%nat ->
+  (length B2 <= 1)%nat -> (k <= length A)%nat -> (2 * k <= length C)%nat ->
+  firstn (2 * k - 1) (skipn (l + 1 - k) (A ++ B2 ++ C)) =
+     skipn (l + 1 - k) A ++ firstn (k + (l - length A)) (B2 ++ C)
+  /\ Z.of_nat k - Z.of_nat (l - length A) - 1 = Z.of_nat (length (skipn (l + 1 - k) A))
+  /\ firstn (l + 1 - k) (A ++ B2 ++ C) = firstn (l + 1 - k) A
+  /\ skipn (l + k) (A ++ B2 ++ C) = skipn (k + (l - length A) - length B2) C.
+Proof.
+  intros A B2 C l H1 H2 H3 H4 H5. split; [|split; [|split]].
+  - rewrite skipn_app. replace (l + 1 - k - length A)%nat with 0%nat by lia. cbn [skipn].
+    replace (2 * k - 1)%nat with (length (skipn (l + 1 - k) A) + (k + (l - length A)))%nat
+      by (rewrite skipn_length; lia).
+    apply firstn_app_2.
+  - rewrite skipn_length. lia.
+  - rewrite firstn_app. replace (l + 1 - k - length A)%nat with 0%nat by lia. cbn [firstn]. apply app_nil_r.
+  - rewrite !skipn_app. rewrite (skipn_all2 A) by lia. rewrite (skipn_all2 B2) by lia. cbn [app].
+    f_equal. lia.
+Qed.
+
+Theorem sub_case : forall v0 A a0 c C vt indel heap, vin k X v0 -> okw v0 (A ++ [a0] ++ C) ->
+  is_acgt c = true -> c <> a0 -> (k <= length A)%nat -> (2 * k <= length C)%nat ->
+  check_of (A ++ [a0] ++ C) vt -> 8 * Z.of_nat k <= heap ->
+  exists cands st, repair_dna (A ++ [c] ++ C) acc v0 (Z.of_nat k) vt indel heap = Ok (cands, st)
+     /\ (detected st = 1 <-> ~ is_walk acc v0 (A ++ [c] ++ C))
+     /\ (is_walk acc v0 (A ++ [c] ++ C) -> detected st = 0)
+     /\ (~ is_walk acc v0 (A ++ [c] ++ C) -> In (A ++ [a0] ++ C) cands).
+Proof.
+  intros v0 A a0 c C vt indel heap Hv0 Hw Hc Hne HkA HC Hchk Hheap.
+  apply (edit_gen v0 A [a0] [c] C Hv0 Hw ltac:(constructor; [exact Hc|constructor]) HkA HC ltac:(cbn [length]; lia));
+    [|exact Hchk|exact Hheap].
+  intros l recs n H1 H2 Hp.
+  destruct (chunk_split A [c] C l H1 H2 ltac:(cbn [length]; lia) HkA HC) as (E1 & E2 & E3 & E4).
+  rewrite E1, E2 in Hp. rewrite E3, E4. cbn [length] in *.
+  set (r := (l - length A)%nat) in *. set (b := skipn (l + 1 - k) A) in *.
+  replace (k + r)%nat with (S (k + r - 1)) in Hp by lia. cbn [app firstn] in Hp.
+  apply okw_app in Hw. destruct Hw as [HwA Hw2]. cbn [app okw] in Hw2. destruct Hw2 as (Ha0 & Hx & HwC).
+  pose proof (okw_vin A v0 Hv0 HwA) as Hu.
+  exists (0, a0, b ++ a0 :: firstn (k + r - 1) C). split.
+  - apply (pm_sub b c (firstn (k + r - 1) C) (stt k v0 A) a0 indel recs n Hu Ha0 ltac:(congruence) Hx
+             (okw_firstn _ _ _ HwC) Hp).
+  - cbn [snd app]. rewrite <- app_assoc. rewrite (app_assoc (firstn (l + 1 - k) A)). unfold b.
+    rewrite firstn_skipn. cbn [app]. rewrite firstn_skipn. reflexivity.
+Qed.
+
+Theorem ins_case : forall v0 A c C vt heap, vin k X v0 -> okw v0 (A ++ [] ++ C) ->
+  is_acgt c = true -> (k <= length A)%nat -> (2 * k <= length C)%nat ->
+  check_of (A ++ [] ++ C) vt -> 8 * Z.of_nat k <= heap ->
+  exists cands st, repair_dna (A ++ [c] ++ C) acc v0 (Z.of_nat k) vt true heap = Ok (cands, st)
+     /\ (detected st = 1 <-> ~ is_walk acc v0 (A ++ [c] ++ C))
+     /\ (is_walk acc v0 (A ++ [c] ++ C) -> detected st = 0)
+     /\ (~ is_walk acc v0 (A ++ [c] ++ C) -> In (A ++ [] ++ C) cands).
+Proof.
+  intros v0 A c C vt heap Hv0 Hw Hc HkA HC Hchk Hheap.
+  apply (edit_gen v0 A [] [c] C Hv0 Hw ltac:(constructor; [exact Hc|constructor]) HkA HC ltac:(cbn [length]; lia));
+    [|exact Hchk|exact Hheap].
+  intros l recs n H1 H2 Hp.
+  destruct (chunk_split A [c] C l H1 H2 ltac:(cbn [length]; lia) HkA HC) as (E1 & E2 & E3 & E4).
+  rewrite E1, E2 in Hp. rewrite E3, E4. cbn [length] in *.
+  set (r := (l - length A)%nat) in *. set (b := skipn (l + 1 - k) A) in *.
+  replace (k + r)%nat with (S (k + r - 1)) in Hp by lia. cbn [app firstn] in Hp.
+  apply okw_app in Hw. destruct Hw as [HwA HwC]. cbn [app] in HwC.
+  pose proof (okw_vin A v0 Hv0 HwA) as Hu.
+  exists (2, c, b ++ firstn (k + r - 1) C). split.
+  - apply (pm_ins b c (firstn (k + r - 1) C) (stt k v0 A) recs n Hu (okw_firstn _ _ _ HwC) Hp).
+  - cbn [snd app]. rewrite <- app_assoc. rewrite (app_assoc (firstn (l + 1 - k) A)). unfold b.
+    rewrite firstn_skipn. rewrite firstn_skipn. reflexivity.
+Qed.
+
+Theorem del_case : forall v0 A a0 C vt heap, vin k X v0 -> okw v0 (A ++ [a0] ++ C) ->
+  (k <= length A)%nat -> (2 * k <= length C)%nat ->
+  check_of (A ++ [a0] ++ C) vt -> 8 * Z.of_nat k <= heap ->
+  exists cands st, repair_dna (A ++ [] ++ C) acc v0 (Z.of_nat k) vt true heap = Ok (cands, st)
+     /\ (detected st = 1 <-> ~ is_walk acc v0 (A ++ [] ++ C))
+     /\ (is_walk acc v0 (A ++ [] ++ C) -> detected st = 0)
+     /\ (~ is_walk acc v0 (A ++ [] ++ C) -> In (A ++ [a0] ++ C) cands).
+Proof.
+  intros v0 A a0 C vt heap Hv0 Hw HkA HC Hchk Hheap.
+  apply (edit_gen v0 A [a0] [] C Hv0 Hw ltac:(constructor) HkA HC ltac:(cbn [length]; lia));
+    [|exact Hchk|exact Hheap].
+  intros l recs n H1 H2 Hp.
+  destruct (chunk_split A [] C l H1 H2 ltac:(cbn [length]; lia) HkA HC) as (E1 & E2 & E3 & E4).
+  rewrite E1, E2 in Hp. rewrite E3, E4. cbn [length] in *.
+  set (r := (l - length A)%nat) in *. set (b := skipn (l + 1 - k) A) in *.
+  destruct C as [|c0 C']; [cbn [length] in HC; lia|].
+  replace (k + r)%nat with (S (k + r - 1)) in Hp by lia. cbn [app firstn] in Hp.
+  apply okw_app in Hw. destruct Hw as [HwA Hw2]. cbn [app okw] in Hw2. destruct Hw2 as (Ha0 & Hx & HwC).
+  pose proof (okw_vin A v0 Hv0 HwA) as Hu.
+  exists (1, a0, b ++ a0 :: c0 :: firstn (k + r - 1) C'). split.
+  - apply (pm_del b c0 (firstn (k + r - 1) C') (stt k v0 A) a0 recs n Hu Ha0 Hx); [|exact Hp].
+    apply (okw_firstn (S (k + r - 1)) (c0 :: C') _ HwC).
+  - cbn [snd app].
+    replace (skipn (k + r - 0) (c0 :: C')) with (skipn (k + r - 1) C')
+      by (replace (k + r - 0)%nat with (S (k + r - 1)) by lia; reflexivity).
+    rewrite <- app_assoc. rewrite (app_assoc (firstn (l + 1 - k) A)). unfold b.
+    rewrite firstn_skipn. cbn [app]. rewrite firstn_skipn. reflexivity.
+Qed.
+
+End Ind.
+
+(* ========================================================================================== *)
+(* Part 9: the target statements                                                              *)
+(* ========================================================================================== *)
 Theorem repair_single_sub : forall k acc v0 w p c vt indel heap, generated k acc -> 0 <= v0 < pow4 k ->
   is_walk acc v0 w -> (k <= p)%nat -> (p + 2 * k < length w)%nat -> is_acgt c = true -> c <> nth p w 0 ->
   check_of w vt -> 8 * Z.of_nat k <= heap ->
@@ -21,6 +1095,20 @@ Theorem repair_single_sub : forall k acc v0 w p c vt indel heap, generated k acc
      /\ (detected st = 1 <-> ~ is_walk acc v0 (edit_sub w p c))
      /\ (is_walk acc v0 (edit_sub w p c) -> detected st = 0)
      /\ (~ is_walk acc v0 (edit_sub w p c) -> In w cands).
+Proof.
+  intros k acc v0 w p c vt indel heap (Hk & Hleg & X & ->) Hv Hwalk Hkp Hpn Hc Hne Hchk Hheap.
+  pose proof (is_walk_start_len k X Hk v0 w Hv ltac:(lia) Hwalk) as Hv0.
+  assert (Ew : w = firstn p w ++ [nth p w 0] ++ skipn (S p) w).
+  { transitivity (firstn p w ++ skipn p w); [symmetry; apply firstn_skipn|].
+    rewrite (skipn_nth w p) by lia. reflexivity. }
+  unfold edit_sub. change (firstn p w ++ c :: skipn (S p) w) with (firstn p w ++ [c] ++ skipn (S p) w).
+  assert (HlA : length (firstn p w) = p) by (apply firstn_length_le; lia).
+  assert (HlC : (2 * k <= length (skipn (S p) w))%nat) by (rewrite skipn_length; lia).
+  remember (firstn p w) as A eqn:HA. remember (skipn (S p) w) as C eqn:HC. remember (nth p w 0) as a0 eqn:Ha0.
+  rewrite Ew in Hwalk, Hchk |- *.
+  apply (sub_case k X Hk v0 A a0 c C vt indel heap Hv0); try assumption; try lia.
+  apply (is_walk_okw k X Hk); assumption.
+Qed.
 
 Theorem repair_single_ins : forall k acc v0 w p c vt heap, generated k acc -> 0 <= v0 < pow4 k ->
   is_walk acc v0 w -> (k <= p)%nat -> (p + 2 * k < length w)%nat -> is_acgt c = true ->
@@ -29,6 +1117,18 @@ Theorem repair_single_ins : forall k acc v0 w p c vt heap, generated k acc -> 0 
      /\ (detected st = 1 <-> ~ is_walk acc v0 (edit_ins w p c))
      /\ (is_walk acc v0 (edit_ins w p c) -> detected st = 0)
      /\ (~ is_walk acc v0 (edit_ins w p c) -> In w cands).
+Proof.
+  intros k acc v0 w p c vt heap (Hk & Hleg & X & ->) Hv Hwalk Hkp Hpn Hc Hchk Hheap.
+  pose proof (is_walk_start_len k X Hk v0 w Hv ltac:(lia) Hwalk) as Hv0.
+  assert (Ew : w = firstn p w ++ [] ++ skipn p w) by (symmetry; apply firstn_skipn).
+  unfold edit_ins. change (firstn p w ++ c :: skipn p w) with (firstn p w ++ [c] ++ skipn p w).
+  assert (HlA : length (firstn p w) = p) by (apply firstn_length_le; lia).
+  assert (HlC : (2 * k <= length (skipn p w))%nat) by (rewrite skipn_length; lia).
+  remember (firstn p w) as A eqn:HA. remember (skipn p w) as C eqn:HC.
+  rewrite Ew in Hwalk, Hchk |- *.
+  apply (ins_case k X Hk v0 A c C vt heap Hv0); try assumption; try lia.
+  apply (is_walk_okw k X Hk); assumption.
+Qed.
 
 Theorem repair_single_del : forall k acc v0 w p vt heap, generated k acc -> 0 <= v0 < pow4 k ->
   is_walk acc v0 w -> (k <= p)%nat -> (p + 2 * k < length w)%nat ->
@@ -37,4 +1137,21 @@ Theorem repair_single_del : forall k acc v0 w p vt heap, generated k acc -> 0 <=
      /\ (detected st = 1 <-> ~ is_walk acc v0 (edit_del w p))
      /\ (is_walk acc v0 (edit_del w p) -> detected st = 0)
      /\ (~ is_walk acc v0 (edit_del w p) -> In w cands).
-*)
+Proof.
+  intros k acc v0 w p vt heap (Hk & Hleg & X & ->) Hv Hwalk Hkp Hpn Hchk Hheap.
+  pose proof (is_walk_start_len k X Hk v0 w Hv ltac:(lia) Hwalk) as Hv0.
+  assert (Ew : w = firstn p w ++ [nth p w 0] ++ skipn (S p) w).
+  { transitivity (firstn p w ++ skipn p w); [symmetry; apply firstn_skipn|].
+    rewrite (skipn_nth w p) by lia. reflexivity. }
+  unfold edit_del. change (firstn p w ++ skipn (S p) w) with (firstn p w ++ [] ++ skipn (S p) w).
+  assert (HlA : length (firstn p w) = p) by (apply firstn_length_le; lia).
+  assert (HlC : (2 * k <= length (skipn (S p) w))%nat) by (rewrite skipn_length; lia).
+  remember (firstn p w) as A eqn:HA. remember (skipn (S p) w) as C eqn:HC. remember (nth p w 0) as a0 eqn:Ha0.
+  rewrite Ew in Hwalk, Hchk |- *.
+  apply (del_case k X Hk v0 A a0 C vt heap Hv0); try assumption; try lia.
+  apply (is_walk_okw k X Hk); assumption.
+Qed.
+
+Print Assumptions repair_single_sub.
+Print Assumptions repair_single_ins.
+Print Assumptions repair_single_del.
